@@ -127,9 +127,15 @@ pub fn content_sexp(ctx: &mut Ctx, w: &World, i: usize) -> Option<String> {
 
 pub fn world_sexp(ctx: &mut Ctx, w: &World, max_redirects: usize, lock: &[(ModuleSpecifier, String)]) -> String {
   let mut resp = vec![];
+  let mut hashes = vec![];
   let mut content = vec![];
   for (i, s) in w.specs.iter().enumerate() {
     let k = ctx.spec(s);
+    if let Resp::Module { .. } = &w.resp[i] {
+      let hu = ctx.texts.id(&sha256_hex(&w.served(i, false).unwrap_or_default()));
+      let hr = ctx.texts.id(&sha256_hex(&w.served(i, true).unwrap_or_default()));
+      hashes.push(format!("({} {} {})", k, hu, hr));
+    }
     let r = match &w.resp[i] {
       Resp::Module { final_spec, .. } => format!("(m {})", ctx.spec(&w.specs[*final_spec])),
       Resp::Redirect(t) => format!("(r {})", ctx.spec(&w.specs[*t])),
@@ -159,14 +165,29 @@ pub fn world_sexp(ctx: &mut Ctx, w: &World, max_redirects: usize, lock: &[(Modul
   for (s, c) in lock {
     locks.push(format!("({} {})", ctx.spec(s), ctx.texts.id(c)));
   }
+  if w.has_locker {
+    for (i, _) in &w.lock {
+      let c = w.locked_checksum(*i).unwrap();
+      locks.push(format!("({} {})", ctx.spec(&w.specs[*i]), ctx.texts.id(&c)));
+    }
+  }
+  let mut remote = vec![];
+  for (i, s) in ctx.specs.list.iter().enumerate() {
+    if s.starts_with("http://") || s.starts_with("https://") {
+      remote.push(i.to_string());
+    }
+  }
   format!(
-    "(world (resp {}) (content {}) (wasm {}) (node {}) {} (lock {}))",
+    "(world (resp {}) (content {}) (wasm {}) (node {}) {} (lock {}) (hashes {}) {} (remote {}))",
     resp.join(" "),
     content.join(" "),
     wasm.join(" "),
     node.join(" "),
     max_redirects,
-    locks.join(" ")
+    locks.join(" "),
+    hashes.join(" "),
+    w.has_locker as u8,
+    remote.join(" ")
   )
 }
 
@@ -303,9 +324,10 @@ pub fn show_log(ctx: &mut Ctx, log: &[LoadCall]) -> Vec<String> {
     .map(|c| {
       let s = ctx.specs.id(&c.specifier);
       format!(
-        "L{}:{}:{}:{}",
+        "L{}:{}{}:{}:{}",
         s,
         if c.ensure_cached { "c" } else { "l" },
+        if c.cache_setting == "reload" { "!" } else { "" },
         c.in_dynamic_branch as u8,
         c.checksum.as_ref().map(|x| ctx.texts.id(x).to_string()).unwrap_or("n".into())
       )
@@ -314,8 +336,15 @@ pub fn show_log(ctx: &mut Ctx, log: &[LoadCall]) -> Vec<String> {
 }
 
 pub fn show_graph(ctx: &mut Ctx, g: &ModuleGraph, log: &[LoadCall]) -> String {
+  show_graph_with_writes(ctx, g, log, &[])
+}
+
+pub fn show_graph_with_writes(ctx: &mut Ctx, g: &ModuleGraph, log: &[LoadCall], writes: &[(String, String)]) -> String {
   let mut v = show_slots(ctx, g);
   v.extend(show_redirects(ctx, g));
   v.extend(show_log(ctx, log));
+  for (s, c) in writes {
+    v.push(format!("W{}={}", ctx.specs.id(s), ctx.texts.id(c)));
+  }
   v.join(" ")
 }
